@@ -51,6 +51,34 @@ def add_ring(rng, spec, k, cloneable):
     return spec
 
 
+def add_cross(rng, spec, k, cloneable):
+    """appends the shape of the doc comment of `complex_borrow_check`: k values V_i, d_i takes V_i by value and borrows
+    V_{i+1}; the handler takes every d_i by value. d_i must come after d_{i-1} (which borrows V_i), all the way round:
+    no evaluation order exists unless one V_i is cloned. Neither `multiple_consumers` (one consumer each) nor
+    `move_while_borrowed` (the borrower is not a descendant of the consumer) sees it; `complex_borrow_check` does."""
+    name = spec["name"]
+    n0 = len(spec["types"])
+    V = [n0 + i for i in range(k)]
+    D = [n0 + k + i for i in range(k)]
+    n1 = n0 + 2 * k
+    for j in range(n0, n1):
+        spec["types"].append({"i": j, "clone": False, "copy": False, "cap": None})
+    ctors = {}
+    for i in range(k):
+        cl = cloneable[i]
+        spec["types"][V[i]]["clone"] = cl
+        ctors[V[i]] = _ctor(name, V[i], [], cl)
+        ctors[D[i]] = _ctor(name, D[i], [[V[i], "val"], [V[(i + 1) % k], "ref"]], False)
+    for j in range(n0, n1):
+        spec["ctors"].append(ctors[j])
+    h = len(spec["handlers"])
+    spec["handlers"].append({"i": h, "method": "GET", "path": "/%s/cross" % name, "full_path": "/%s/cross" % name,
+                             "ins": [[d, "val"] for d in D], "fallible": False, "async": False, "fw": None})
+    spec["bp"] = [["ctor", j] for j in range(n0, n1)] + spec["bp"] + [["route", h]]
+    spec["cross"] = {"k": k, "cloneable": cloneable, "V": V, "D": D}
+    return spec
+
+
 def make(rng, name):
     spec = gen_app.gen_spec(rng, name, "free", size=rng.randrange(3, 7), n_mws=rng.choice([0, 0, 1, 2]), own_stress=True)
     spec["klass"] = "own"
@@ -63,4 +91,10 @@ def make(rng, name):
         add_ring(rng, spec, k, cloneable)
         # b_0 needs the output of c_{k-1}, a constructor with a larger index: outside what the life model (C03/C04) reads
         spec["klass"] = "ownring"
+    elif z % 10 < 8:
+        k = 2 + (z >> 4) % 2
+        pat = (z >> 11) % 4
+        cloneable = [True] * k if pat == 0 else ([False] * k if pat == 1 else ([i == k - 1 for i in range(k)] if pat == 2 else [i == 0 for i in range(k)]))
+        add_cross(rng, spec, k, cloneable)
+        spec["klass"] = "ownring"      # same treatment as the rings by the checks that read the family (verdict + compile + pass mirrors)
     return spec
